@@ -227,10 +227,20 @@ pub async fn negotiate(off: &mut Peer, ans: &mut Peer, k: &PcKnobs, ctx: &Ctx) -
     let answer = ans.pc.create_answer().await.map_err(|e| format!("{} create_answer(2): {e}", ans.name))?;
     let answer_s = answer.to_sdp_string();
     ctx.ev(&format!("sig {} answer", ans.name), &if ctx.plan.knob("dump_sdp", 0) == 1 { answer_s.clone() } else { format!("len={}", answer_s.len()) });
-    ans.pc.set_local_description(answer.clone()).map_err(|e| format!("{} set_local(answer): {e}", ans.name))?;
+    // ans_late_ms > 0: the answering application hands its answer to the signaling channel first and applies it
+    // locally only that long after the offerer has applied it (both orders complete the exchange)
+    let late = ctx.plan.knob("ans_late_ms", 0).max(0) as u64;
+    if late == 0 {
+        ans.pc.set_local_description(answer.clone()).map_err(|e| format!("{} set_local(answer): {e}", ans.name))?;
+    }
     tokio::time::sleep(sig_delay).await; // answer in transit
     let answer_rx = SessionDescription::parse(rustrtc::SdpType::Answer, &answer_s).map_err(|e| format!("answer does not re-parse: {e}"))?;
     off.pc.set_remote_description(answer_rx).await.map_err(|e| format!("{} set_remote(answer): {e}", off.name))?;
+    if late > 0 {
+        tokio::time::sleep(std::time::Duration::from_millis(late)).await;
+        ctx.ev(&format!("sig {} applies its answer late", ans.name), &format!("after {late} ms"));
+        ans.pc.set_local_description(answer.clone()).map_err(|e| format!("{} set_local(answer, late): {e}", ans.name))?;
+    }
     Ok((offer_s, answer_s))
 }
 
